@@ -1,0 +1,151 @@
+//go:build verif
+
+// Contracts for govc (contract-based deductive verification); comments only.
+package capacity_policy
+
+// ---- spec functions --------------------------------------------------------
+// Property C08: "No scheduling decision raises the total allocation of a queue or of any of its
+// ancestors above its configured limit in any resource [-1 unlimited]".
+// okQty: one resource of one queue: a request of `req` on top of `alloc` does not raise the
+// allocation above `lim` (a request of 0 raises nothing).
+//@ define okQty(lim real, alloc real, req real) bool = lim == -1.0 || req == 0.0 || alloc + req <= lim
+//@ define withinLimit(q *rs.QueueAttributes, r rs.ResourceQuantities) bool = okQty(q.CPU.MaxAllowed, q.CPU.Allocated, r["CPU"]) && okQty(q.Memory.MaxAllowed, q.Memory.Allocated, r["Memory"]) && okQty(q.GPU.MaxAllowed, q.GPU.Allocated, r["GPU"])
+// "... and no decision raises the allocation of non-preemptible workloads of a queue or ancestor above its deserved quota"
+//@ define withinQuota(q *rs.QueueAttributes, r rs.ResourceQuantities) bool = okQty(q.CPU.Deserved, q.CPU.AllocatedNotPreemptible, r["CPU"]) && okQty(q.Memory.Deserved, q.Memory.AllocatedNotPreemptible, r["Memory"]) && okQty(q.GPU.Deserved, q.GPU.AllocatedNotPreemptible, r["GPU"])
+
+// memoised share maps of every queue on the chain are coherent (needed by GetDeservedShare in the explanation branch)
+//@ define chainCacheOK(queues map[common_info.QueueID]*rs.QueueAttributes, s common_info.QueueID) bool = forall n int :: 0 <= n && n < utils.depth(s) ==> rs.cacheOK(queues[utils.anc(s, n)]) && allocated(queues[utils.anc(s, n)].lastDeservedShare) && allocated(queues[utils.anc(s, n)].lastFairShare)
+
+// every level of the parent chain of queue id s (s itself and all ancestors) stays within its limit / quota
+//@ define allWithinLimit(queues map[common_info.QueueID]*rs.QueueAttributes, s common_info.QueueID, r rs.ResourceQuantities) bool = forall n int :: 0 <= n && n < utils.depth(s) ==> withinLimit(queues[utils.anc(s, n)], r)
+//@ define allWithinQuota(queues map[common_info.QueueID]*rs.QueueAttributes, s common_info.QueueID, r rs.ResourceQuantities) bool = forall n int :: 0 <= n && n < utils.depth(s) ==> withinQuota(queues[utils.anc(s, n)], r)
+
+//@ func isOverLimit
+//@   props C08
+//@   requires queueAttributes != nil
+//@   pure
+//@   loop 1 unroll 3
+//@   ensures result0 == !withinLimit(queueAttributes, requested)
+//@   ensures [firstExceeding] result1 == ite(!okQty(queueAttributes.CPU.MaxAllowed, queueAttributes.CPU.Allocated, requested["CPU"]), "CPU", ite(!okQty(queueAttributes.Memory.MaxAllowed, queueAttributes.Memory.Allocated, requested["Memory"]), "Memory", ite(!okQty(queueAttributes.GPU.MaxAllowed, queueAttributes.GPU.Allocated, requested["GPU"]), "GPU", "")))
+//@ end
+
+//@ func isAllocatedNonPreemptibleOverQuota
+//@   props C08
+//@   requires queueAttributes != nil
+//@   pure
+//@   loop 1 unroll 3
+//@   ensures result0 == !withinQuota(queueAttributes, requested)
+//@   ensures [firstExceeding] result1 == ite(!okQty(queueAttributes.CPU.Deserved, queueAttributes.CPU.AllocatedNotPreemptible, requested["CPU"]), "CPU", ite(!okQty(queueAttributes.Memory.Deserved, queueAttributes.Memory.AllocatedNotPreemptible, requested["Memory"]), "Memory", ite(!okQty(queueAttributes.GPU.Deserved, queueAttributes.GPU.AllocatedNotPreemptible, requested["GPU"]), "GPU", "")))
+//@ end
+
+//@ func Schedulable
+//@   props C08
+//@   fresh
+//@   ensures result != nil && result.IsSchedulable
+//@ end
+
+// Property C08 (limit half): Schedulable ==> at EVERY ancestor level allocated + requested <= limit in
+// all three resources (-1 = unlimited); stated as an equivalence (the converse: an unschedulable
+// answer is given only if some level really is over its limit).
+//@ func (*CapacityPolicy).resultsOverLimit
+//@   props C08 C10
+//@   requires cp != nil && job != nil
+//@   requires utils.chainOK(cp.queues, job.Queue) && chainCacheOK(cp.queues, job.Queue)
+//@   modifies family(cp.queues[job.Queue].lastDeservedShare)
+//@   loop 1
+//@     invariant ok ==> utils.onChain(cp.queues, job.Queue, queueAttributes)
+//@     invariant chainCacheOK(cp.queues, job.Queue)
+//@     invariant ok ==> rs.cacheOK(queueAttributes)
+//@     invariant !ok ==> (forall n int :: 0 <= n && n < utils.depth(job.Queue) ==> withinLimit(cp.queues[utils.anc(job.Queue, n)], requestedShare))
+//@     invariant ok ==> (forall n int :: 0 <= n && n < utils.lvl(queueAttributes) ==> withinLimit(cp.queues[utils.anc(job.Queue, n)], requestedShare))
+//@     decreases ite(ok, utils.depth(job.Queue) - utils.lvl(queueAttributes), 0)
+//@   ensures result != nil
+//@   ensures [cacheKept] chainCacheOK(cp.queues, job.Queue)
+//@   ensures result.IsSchedulable == old(forall n int :: 0 <= n && n < utils.depth(job.Queue) ==> withinLimit(cp.queues[utils.anc(job.Queue, n)], requestedShare))
+//@ end
+
+// Property C08 (quota half): a NON-preemptible job is Schedulable ==> at EVERY ancestor level
+// non-preemptible allocated + requested <= deserved quota in all three resources (-1 = unlimited);
+// preemptible jobs are not restricted by this check. Stated as an equivalence.
+//@ func (*CapacityPolicy).resultsWithNonPreemptibleOverQuota
+//@   props C08 C10
+//@   requires cp != nil && job != nil
+//@   requires utils.chainOK(cp.queues, job.Queue) && chainCacheOK(cp.queues, job.Queue)
+//@   modifies family(cp.queues[job.Queue].lastDeservedShare)
+//@   loop 1
+//@     invariant ok ==> utils.onChain(cp.queues, job.Queue, queueAttributes)
+//@     invariant chainCacheOK(cp.queues, job.Queue)
+//@     invariant ok ==> rs.cacheOK(queueAttributes)
+//@     invariant !ok ==> (forall n int :: 0 <= n && n < utils.depth(job.Queue) ==> withinQuota(cp.queues[utils.anc(job.Queue, n)], requestedShare))
+//@     invariant ok ==> (forall n int :: 0 <= n && n < utils.lvl(queueAttributes) ==> withinQuota(cp.queues[utils.anc(job.Queue, n)], requestedShare))
+//@     decreases ite(ok, utils.depth(job.Queue) - utils.lvl(queueAttributes), 0)
+//@   ensures result != nil
+//@   ensures [cacheKept] chainCacheOK(cp.queues, job.Queue)
+//@   ensures result.IsSchedulable == old(job.Preemptibility == v2alpha2.Preemptible || (forall n int :: 0 <= n && n < utils.depth(job.Queue) ==> withinQuota(cp.queues[utils.anc(job.Queue, n)], requestedShare)))
+//@ end
+
+// ---- requested quantities of a set of tasks ------------------------------------------------------
+// reqCpu(n)/reqMem(n): prefix sums over the first n tasks of THE tasksToAllocate argument
+// (let-bound by the `requires sumsOf(...)` clause of each function that takes such a slice).
+//@ declare reqCpu(n int) real
+//@ declare reqMem(n int) real
+//@ define tasksOK(tasks []*pod_info.PodInfo) bool = forall i int :: 0 <= i && i < len(tasks) ==> tasks[i] != nil && tasks[i].ResReq != nil
+//@ define sumsOf(tasks []*pod_info.PodInfo) bool = reqCpu(0) == 0.0 && reqMem(0) == 0.0 && (forall i int :: 0 <= i && i < len(tasks) ==> reqCpu(i+1) == reqCpu(i) + tasks[i].ResReq.milliCpu) && (forall i int :: 0 <= i && i < len(tasks) ==> reqMem(i+1) == reqMem(i) + tasks[i].ResReq.memory)
+
+// The quantity checked for a job = component-wise sum of cpu, memory and total GPU quota of the tasks.
+// Proved for cpu and memory. The GPU component (sum of GetGpusQuota() of each task's ResReq) is NOT
+// claimed: its sum definition needs a spec call whose receiver depends on the bound index, for which the engine
+// drops the callee contract, and the embedded GpuResourceRequirement cannot be passed to ri.gpusQuota.
+//@ func getRequiredQuota
+//@   props C08 C10
+//@   requires tasksOK(tasksToAllocate) && sumsOf(tasksToAllocate)
+//@   fresh
+//@   loop 1
+//@     invariant 0 - 1 <= rangeindex && rangeindex < len(tasksToAllocate)
+//@     invariant quota.MilliCPU == reqCpu(rangeindex + 1)
+//@     invariant quota.Memory == reqMem(rangeindex + 1)
+//@   ensures result != nil
+//@   ensures [cpuMem] result.MilliCPU == reqCpu(len(tasksToAllocate)) && result.Memory == reqMem(len(tasksToAllocate))
+//@ end
+
+// ---- entry points registered with the session -----------------------------------------------------
+//@ func (*CapacityPolicy).isJobOverCapacity
+//@   inline
+//@   loop 1 unroll 2
+//@ end
+
+// Property C08, job-level decision: Schedulable <==> for the requested quantities r of the tasks, EVERY
+// level of the job's queue chain keeps allocated + r <= limit, and (for a non-preemptible job)
+// non-preemptible allocated + r <= deserved quota.
+//@ func (*CapacityPolicy).IsJobOverQueueCapacity
+//@   props C08 C10
+//@   requires cp != nil && job != nil && tasksOK(tasksToAllocate) && sumsOf(tasksToAllocate)
+//@   requires utils.chainOK(cp.queues, job.Queue) && chainCacheOK(cp.queues, job.Queue)
+//@   modifies family(cp.queues[job.Queue].lastDeservedShare)
+//@   ensures result != nil
+//@   ensures result.IsSchedulable == (allWithinLimit(cp.queues, job.Queue, requestedShareQuantities) && (job.Preemptibility == v2alpha2.Preemptible || allWithinQuota(cp.queues, job.Queue, requestedShareQuantities)))
+//@   ensures [requestedIsSum] requestedShareQuantities["CPU"] == reqCpu(len(tasksToAllocate)) && requestedShareQuantities["Memory"] == reqMem(len(tasksToAllocate)) && requestedShareQuantities["GPU"] == requiredQuota.GPU
+//@ end
+
+//@ func (*CapacityPolicy).IsNonPreemptibleJobOverQuota
+//@   props C08 C10
+//@   requires cp != nil && job != nil && tasksOK(tasksToAllocate) && sumsOf(tasksToAllocate)
+//@   requires utils.chainOK(cp.queues, job.Queue) && chainCacheOK(cp.queues, job.Queue)
+//@   modifies family(cp.queues[job.Queue].lastDeservedShare)
+//@   ensures result != nil
+//@   ensures result.IsSchedulable == (job.Preemptibility == v2alpha2.Preemptible || allWithinQuota(cp.queues, job.Queue, requestedShareQuantities))
+//@   ensures [requestedIsSum] requestedShareQuantities["CPU"] == reqCpu(len(tasksToAllocate)) && requestedShareQuantities["Memory"] == reqMem(len(tasksToAllocate)) && requestedShareQuantities["GPU"] == requiredQuota.GPU
+//@ end
+
+// Task-level decision (the check that precedes every allocate/pipeline of one task on one node): same
+// equivalence for the quantities node.GetRequiredInitQuota(task) -- here named by the local requestedShare.
+//@ func (*CapacityPolicy).IsTaskAllocationOnNodeOverCapacity
+//@   props C08 C10
+//@   requires cp != nil && job != nil && node != nil && task != nil && task.ResReq != nil
+//@   requires node.MemoryOfEveryGpuOnNode > 0   // precondition of node_info.getGpuMemoryFractionalOnNode (float division), owned by helper "node"
+//@   requires utils.chainOK(cp.queues, job.Queue) && chainCacheOK(cp.queues, job.Queue)
+//@   modifies family(cp.queues[job.Queue].lastDeservedShare)
+//@   ensures result != nil
+//@   ensures result.IsSchedulable == (allWithinLimit(cp.queues, job.Queue, requestedShare) && (job.Preemptibility == v2alpha2.Preemptible || allWithinQuota(cp.queues, job.Queue, requestedShare)))
+//@   ensures [requestedIsInitQuota] requestedShare["CPU"] == requiredInitQuota.MilliCPU && requestedShare["Memory"] == requiredInitQuota.Memory && requestedShare["GPU"] == requiredInitQuota.GPU
+//@ end
